@@ -13,7 +13,7 @@ from mc.props import c10 as _c10
 
 ID = 'C09'
 LEVEL = 'model_checking'
-CASE_TIMEOUT = 240
+CASE_TIMEOUT = 90
 BATCH = 24
 RULE = _c10.RULE.replace('feedforward', 'feedback')
 ASSUMPTIONS = list(_c10.ASSUMPTIONS)
